@@ -445,6 +445,28 @@ def divmod_unit(p, item, tier, seed):
                 REPLAY_PRELUDE + "from checks import c09_comp\n" + f"mm=c09_comp.concrete_mismatch({n}, {be})\nprint(mm)\nsys.exit(1 if mm else 0)\n")
 
 
+def sqrt_unit(p, item, tier, seed):
+    """Digit-by-digit square root at a width beyond the direct query: per-iteration lemmas + integer invariant (c09_comp)."""
+    from checks import c09_comp
+
+    n, be = item
+    probs, stats = c09_comp.sqrt_true_width(p, n, be)
+    p.case(("c09-sqrt-comp", n, be), sample=f"compositional sqrt n={n} big_endian={be}: {stats}")
+    hard = [x for x in probs if "inconclusive" not in x]
+    for x in probs:
+        if "inconclusive" in x:
+            p.inconclusive.append(f"sqrt n={n}: {x}")
+    if not hard:
+        return
+    mm = c09_comp.sqrt_concrete_mismatch(n, be)
+    if mm is None:
+        p.inconclusive.append(f"compositional check of sqrt n={n} failed ({hard[0]}) but the targeted concrete operands have the right root")
+        p.queries["unknown"] += 1
+        return
+    p.violation(f"gen:add_sqrt:{'BE:' if be else ''}wide", f"sqrt n={n} big_endian={be}: {hard[:2]}; concrete witness sqrt({mm[0]}) gives {mm[1]} instead of {mm[2]}",
+                REPLAY_PRELUDE + "from checks import c09_comp\n" + f"mm=c09_comp.sqrt_concrete_mismatch({n}, {be})\nprint(mm)\nsys.exit(1 if mm else 0)\n")
+
+
 def run(rep, tier, seed, only=None):
     symeval.install()
     rep.functions = ["subtraction.add_sub2/add_sub3/add_sub_two_numbers/add_subtract_with_compare/generate_sub_two_numbers", "div_mod.add_div_mod/generate_div_mod",
@@ -466,8 +488,10 @@ def run(rep, tier, seed, only=None):
     work = [dict(seed=seed * 1000 + i, cases=[c]) for i, c in enumerate(heavy)]
     work += [dict(seed=seed * 1000 + 500 + i, cases=light[i::48]) for i in range(48)]
     rep.pmap(unit, [w for w in work if w["cases"]])
-    if only is None or "div_mod" in only:
+    if only is None or "div_mod" in only or "sqrt" in only:
         thorough = tier == "thorough"
         rep.pmap(divmod_unit, [(n, bool(n % 3)) for n in ((12, 16, 24, 32) if not thorough else (10, 12, 13, 16, 17, 24, 31, 32, 33, 48, 64))])
+        rep.pmap(sqrt_unit, [(n, bool(n % 3)) for n in ((17, 24, 33, 40) if not thorough else (17, 20, 24, 31, 32, 33, 40, 48, 63, 64))])
+        rep.bounds["sqrt (compositional)"] = ("n = 17, 24, 33, 40 (quick) / ..64 (thorough): one bit-vector lemma per iteration of the digit recurrence (entering remainder and accumulator free) + integer invariant lemmas")
         rep.bounds["div_mod (compositional)"] = ("n = 12, 16, 24, 32 (quick) / 10..64 (thorough): one bit-vector lemma per iteration of the restoring scheme (entering remainder and divisor free), "
                                                  "the zero-divisor stage, and integer lemmas (step bound, Euclid uniqueness)")
